@@ -77,11 +77,9 @@ func (p Precompile) Transfer(
 		return nil, err
 	}
 
-	// NOTE: This ensures that the changes in the bank keeper are correctly mirrored to the EVM stateDB.
-	// This prevents the stateDB from overwriting the changed balance in the bank keeper when committing the EVM state.
-	if isCallerSender && msg.Token.Denom == p.stakingKeeper.BondDenom(ctx) {
-		stateDB.(*statedb.StateDB).SubBalance(contract.CallerAddress, msg.Token.Amount.BigInt())
-	}
+	// NOTE: the transfer escrows coins of the sender, which the EVM stateDB may already have loaded: bring the
+	// cached balances in line with the bank keeper, so that committing the EVM state does not overwrite them.
+	stateDB.(*statedb.StateDB).SyncBalances()
 
 	return method.Outputs.Pack(res.Sequence)
 }
